@@ -73,14 +73,19 @@ def gen_cases(tier, seed):
             else:
                 c["lc"] = sc.fl(rng.choice([0.2, 0.8]))
             add(c)
-    # ladders that start far below the usual range ("any start"): at lambda 1e-12 .. 1e-9 the fit term is tiny but not zero,
+    # ladders that start far below the usual range ("any start"): at lambda 1e-10 .. 1e-8 the fit term is tiny but far above rounding noise,
     # the V-curve minimum still lies where it lies
     for k in range(6 if quick else 30):
         variant = ["vp", "v", "vp"][k % 3]
         n = rng.choice([8, 10, 12])
-        y = gaps(rng, series(rng, n, rng.choice(["noise", "season"])), -3000, rng.choice([0.0, 0.1]))
-        start, step = [(-12.0, 2.0), (-10.0, 1.5), (-12.0, 1.0)][k % 3]
-        ng = 8 if step > 1.0 else 15
+        # smooth, moderate-amplitude series: the fit term stays below 1e-10 over several ladder entries (where an absolute floor
+        # or tolerance on it would bite), yet far above rounding noise relative to the data
+        amp, ph = rng.choice([100, 200, 300]), rng.uniform(0, 3)
+        y = [int(round(rng.choice([400, 1000]) + amp * np.sin(t / 2.0 + ph) + rng.gauss(0, amp / 4.0))) for t in range(n)]
+        if k % 2:
+            y[rng.randrange(1, n - 1)] = -3000
+        start, step = [(-10.0, 0.5), (-9.0, 0.5), (-10.0, 1.0)][k % 3]
+        ng = {1.0: 13, 0.5: 24}[step]
         c = {"variant": variant, "y": [str(v) for v in y], "nd": "-3000", "api": ["kernel", "accessor"][k % 2], "grid": [sc.fl(start + j * step) for j in range(ng)], "family": "lowladder"}
         if variant == "vp":
             c["p"] = sc.fl(rng.choice([0.9, 0.8, 0.6]))
